@@ -75,6 +75,7 @@ fn eval(op: &str, args: &[&str]) -> Option<Vec<String>> {
         "dparse" => c17::dparse(args),
         "mboxctor" => c17::mboxctor(args),
         "typed" => c17::typed(args),
+        "tparse" => c17::tparse(args),
         "build" => c17::build(args),
         "hdrs" => c02::hdrs(args),
         "crlf" => c10::crlf(args),
